@@ -34,6 +34,7 @@ def main():
         del args[i:i + 2]
     args = [a for a in args if not a.startswith("--")]
     prop, name, patch, demo = args[:4]
+    patch, demo = os.path.abspath(patch), os.path.abspath(demo)
     notes = args[4] if len(args) > 4 else None
     wt = "/tmp/seedchk-%s-%s" % (prop, name)
     if os.path.isdir(wt):
@@ -96,10 +97,9 @@ def main():
                     os.remove(p)
         dest = "/verif/seeded/%s-%s" % (prop, name)
         os.makedirs(dest, exist_ok=True)
-        shutil.copy(patch, os.path.join(dest, "patch.diff"))
-        shutil.copy(demo, os.path.join(dest, "demo.py"))
-        if notes and os.path.exists(notes):
-            shutil.copy(notes, os.path.join(dest, "notes.md"))
+        for src, name_ in ((patch, "patch.diff"), (demo, "demo.py"), (notes, "notes.md")):
+            if src and os.path.exists(src) and os.path.realpath(src) != os.path.realpath(os.path.join(dest, name_)):
+                shutil.copy(src, os.path.join(dest, name_))
         old = {}
         mp = os.path.join(dest, "meta.json")
         if os.path.exists(mp):
